@@ -688,6 +688,8 @@ ADJACENT_PAIRS = [
     # float32-exact values: "1.0" + "6250.5" == "1.0625" + "0.5"
     ({"right_indent": 1.0, "text_inset": 6250.5}, {"right_indent": 1.0625, "text_inset": 0.5}),
     ({"first_indent": 2.5, "left_indent": 6250.5}, {"first_indent": 2.5625, "left_indent": 0.5}),
+    # the same picture under two file names: two images of the document
+    ({"bg_color": None, "bg_image": ["one.png", "89504e470d0a1a0a0102030405"]}, {"bg_color": None, "bg_image": ["two.png", "89504e470d0a1a0a0102030405"]}),
 ]
 
 
@@ -696,8 +698,8 @@ def adjacent_pairs(ctx):
         ex = StyleExec(ctx)
         try:
             ex.apply("new", rows=3, cols=2)
-            ex.apply("add_style", spec={"name": "One", **BASE_SPEC, **a})
-            ex.apply("add_style", spec={"name": "Two", **BASE_SPEC, **b})
+            ex.apply("add_style", spec={k_: v for k_, v in {"name": "One", **BASE_SPEC, **a}.items() if v is not None})
+            ex.apply("add_style", spec={k_: v for k_, v in {"name": "Two", **BASE_SPEC, **b}.items() if v is not None})
             ex.apply("apply", row=0, col=0, idx=0, by_name=False)
             ex.apply("apply", row=1, col=1, idx=1, by_name=False)
             ex.apply("reopen", switch=False)
